@@ -1,6 +1,7 @@
 package main
 
 import (
+	"go/types"
 	"fmt"
 	"go/constant"
 	"go/token"
@@ -85,6 +86,8 @@ func runC17(c *Ctx) {
 	c.rule("S2", "writer interval I(p) and reader threshold T(p) are linear in the same period field: I ≤ p, T − I ≥ p, comparison is age > T, both sides in the same unit", 3)
 	c.rule("S3", "IsStale: constant false only on a failed filesystem call; the empty directory is judged by its own age; all heartbeat files must be stale; nil time info is not stale", 4)
 	c.rule("S5", "every removal of the lock made on the strength of IsStale() claims the judged directory atomically first (rename to a private name), so that a lock taken over meanwhile by a live holder is not removed", 1)
+	c.rule("S7", "a heartbeat file whose age cannot be read (removed since the listing, transient failure) counts as a sign of life, never as stale and never as absent", 1)
+	c.rule("S6", "IsStale reads the age of the files it finds in the lock directory, not of a file named after the observer's own id", 1)
 	c.rule("S4", "ReleaseIfStale calls Unlock only on the true side of IsStale()", 1)
 
 	try := c.fn(fsPkgRel, "(*RemoteLockFile).TryLock")
@@ -92,10 +95,24 @@ func runC17(c *Ctx) {
 	unlock := c.fn(fsPkgRel, "(*RemoteLockFile).Unlock")
 	isStaleM := c.fn(fsPkgRel, "(*RemoteLockFile).IsStale")
 	isStaleF := c.fn(fsPkgRel, "isStale")
-	allStale := c.fn(fsPkgRel, "areHeartBeatFilesAllStale")
+	allStale := c.fnOpt(fsPkgRel, "areHeartBeatFilesAllStale")
 	rel := c.fn(fsPkgRel, "(*RemoteLockFile).ReleaseIfStale")
-	if try == nil || hb == nil || unlock == nil || isStaleM == nil || isStaleF == nil || allStale == nil || rel == nil {
+	if try == nil || hb == nil || unlock == nil || isStaleM == nil || isStaleF == nil || rel == nil {
 		return
+	}
+	helperInlined := allStale == nil
+	if !helperInlined {
+		called := false
+		allInstrs(isStaleM, func(in ssa.Instruction) {
+			if cl, ok := in.(*ssa.Call); ok && staticCallee(&cl.Call) == allStale {
+				called = true
+			}
+		})
+		helperInlined = !called
+	}
+	if helperInlined {
+		// the per-file judgement may have been folded into IsStale itself
+		allStale = isStaleM
 	}
 	for _, f := range []*ssa.Function{try, hb, unlock, isStaleM, isStaleF, allStale, rel} {
 		c.FuncsSeen[fname(f)] = true
@@ -332,8 +349,11 @@ func runC17(c *Ctx) {
 				inner = cl
 			}
 		})
-		if inner == nil || paramIndex(allStale, inner.Call.Args[1]) != 3 {
+		if inner == nil || (!helperInlined && paramIndex(allStale, inner.Call.Args[1]) != 3) || (helperInlined && !isPeriodField(inner.Call.Args[1])) {
 			same = false
+		}
+		if helperInlined {
+			n++ // the call that used to hand the period to the helper
 		}
 		c.check(same && n >= 2, "S2", fname(isStaleM)+"/same-period", c.pos(isStaleM.Pos()), "reader judges by l.lockHeartBeatPeriod, the field the writer runs on", "the staleness threshold is not computed from l.lockHeartBeatPeriod")
 	}
@@ -350,11 +370,14 @@ func runC17(c *Ctx) {
 			for _, l := range sources(r.Results[0], deriveOpts{}) {
 				if b, isC := constBool(l); isC {
 					if b {
-						bad = c.ipos(r) + " (constant true)"
+						// "every file was found stale": the exit of a loop that leaves with false at the first file that is not
+						if !(helperInlined && c17LoopAllForm(isStaleM, isStaleF, r)) {
+							bad = c.ipos(r) + " (constant true)"
+						}
 						continue
 					}
-					// constant false: only where a call's error is non-nil
-					onErr := false
+					// constant false: only where a call's error is non-nil (or a file was found not stale)
+					onErr := c17FalseEdgesOK(r.Block(), isStaleF, map[*ssa.BasicBlock]bool{})
 					allInstrs(isStaleM, func(j ssa.Instruction) {
 						if cl, ok := j.(*ssa.Call); ok {
 							for _, e := range errResultsOf(cl) {
@@ -384,7 +407,9 @@ func runC17(c *Ctx) {
 							}
 						}
 					}
-				} else if g != allStale {
+				} else if helperInlined && strings.HasSuffix(calleeFull(&cl.Call), "collection.All") {
+					// the verdicts of the files, combined (S3/all below looks at how)
+				} else if g != allStale || helperInlined {
 					bad = c.ipos(r)
 				}
 			}
@@ -398,13 +423,64 @@ func runC17(c *Ctx) {
 			if !ok {
 				return
 			}
+			if b, isC := constBool(r.Results[0]); isC && b && c17LoopAllForm(allStale, isStaleF, r) {
+				allOK = true
+			}
 			for _, l := range sources(r.Results[0], deriveOpts{}) {
 				if cl, ok := l.(*ssa.Call); ok && strings.HasSuffix(calleeFull(&cl.Call), "collection.All") {
 					allOK = true
 				}
 			}
 		})
-		c.check(allOK, "S3", fname(allStale)+"/all", c.pos(allStale.Pos()), "stale only if every heartbeat file is stale", "several heartbeat files are no longer combined with 'all': one old file makes a live lock stale")
+		c.check(allOK, "S3", "filesystem.areHeartBeatFilesAllStale/all", c.pos(allStale.Pos()), "stale only if every heartbeat file is stale", "the files found in the lock directory are no longer judged one by one and combined with 'all': one old file makes a live lock stale, or the files present are not looked at")
+		// S6: the reader looks at what the writer wrote. The path of every file whose age decides comes from the listing of
+		// the lock directory (or is the directory itself) — never from a name the observer computes from its own id:
+		// lockPath() trims the id, heartBeatFile() does not, so two lock objects for the same lock can name the file differently.
+		badPath := ""
+		for _, f := range []*ssa.Function{isStaleM, allStale} {
+			allInstrs(f, func(in ssa.Instruction) {
+				cl, ok := in.(*ssa.Call)
+				if !ok {
+					return
+				}
+				name, args, isFs := fsMethodCall(in)
+				if !isFs || !(name == "StatTimes" || name == "Stat" || name == "Lstat") || len(args) == 0 {
+					return
+				}
+				pth := args[len(args)-1]
+				if isLockPathValue(pth) {
+					return
+				}
+				fromListing, fromOwnName := false, false
+				for _, l := range sources(pth, deriveOpts{through: func(n string) bool { return n == "path/filepath.Join" || n == "path/filepath.Clean" }}) {
+					switch x := l.(type) {
+					case *ssa.Extract:
+						if lc, ok := x.Tuple.(*ssa.Call); ok {
+							if ln, _, ok := fsMethodCall(lc); ok && strings.HasPrefix(ln, "Ls") {
+								fromListing = true
+							}
+						}
+					case *ssa.Call:
+						if strings.HasSuffix(calleeFull(&x.Call), "RemoteLockFile).heartBeatFile") {
+							fromOwnName = true
+						}
+					case *ssa.Parameter:
+						// the helper's list parameter: filled from the listing at its call site (checked by same-period/all above)
+						if _, isSlice := x.Type().Underlying().(*types.Slice); isSlice {
+							fromListing = true
+						}
+					}
+				}
+				if fromOwnName || !fromListing {
+					badPath = c.ipos(cl)
+				}
+			})
+		}
+		c.check(badPath == "", "S6", fname(isStaleM)+"/judges-what-is-there", c.pos(isStaleM.Pos()), "ages are read from the files listed in the lock directory (or the directory itself)",
+			"the age read at "+badPath+" is that of a path the observer computed itself (heartBeatFile of its own id) rather than of a file found in the lock directory: holder and observer whose ids differ by surrounding white space share the lock directory (lockPath trims the id) but name the heartbeat file differently, the observer falls back to the directory's age and reports a live lock stale")
+		// S7: a heartbeat file that cannot be examined says nothing about the holder: it counts as a sign of life.
+		okU, whyU, posU := c.c17UnreadableIsAlive(isStaleM, allStale, isStaleF)
+		c.check(okU, "S7", fname(isStaleM)+"/unreadable-is-alive", posU, "a heartbeat file that cannot be examined makes the verdict 'not stale'", whyU)
 		// nil info is not stale
 		nilOK := false
 		allInstrs(isStaleF, func(in ssa.Instruction) {
@@ -514,4 +590,179 @@ func instrOf(v any) ssa.Instruction {
 		return x
 	}
 	return nil
+}
+
+// c17FalseEdgesOK: every way into block b (looking through blocks that only jump) is the failing side of a call's error
+// test or the side where the age test answered "not stale".
+func c17FalseEdgesOK(b *ssa.BasicBlock, isStaleF *ssa.Function, seen map[*ssa.BasicBlock]bool) bool {
+	if seen[b] {
+		return true
+	}
+	seen[b] = true
+	if len(b.Preds) == 0 {
+		return false
+	}
+	for _, p := range b.Preds {
+		ifi, ok := p.Instrs[len(p.Instrs)-1].(*ssa.If)
+		if !ok {
+			// a block that merely jumps here
+			if len(p.Instrs) == 1 {
+				if !c17FalseEdgesOK(p, isStaleF, seen) {
+					return false
+				}
+				continue
+			}
+			return false
+		}
+		side := 0
+		if p.Succs[1] == b {
+			side = 1
+		}
+		if x, nilSucc, isNil := nilTest(ifi); isNil && isErrorType(x.Type()) && side != nilSucc {
+			if _, fromCall := x.(*ssa.Extract); fromCall {
+				continue
+			}
+			if _, fromCall := x.(*ssa.Call); fromCall {
+				continue
+			}
+		}
+		v, ts := boolTest(ifi)
+		if cl, isCall := v.(*ssa.Call); isCall && staticCallee(&cl.Call) == isStaleF && side == 1-ts {
+			continue
+		}
+		return false
+	}
+	return true
+}
+
+// c17LoopAllForm: `return true` at r closes a loop over the files in which the age test is called and whose body leaves
+// with false as soon as one file is not stale (or cannot be examined).
+func c17LoopAllForm(f, isStaleF *ssa.Function, r *ssa.Return) bool {
+	var test *ssa.Call
+	allInstrs(f, func(in ssa.Instruction) {
+		if cl, ok := in.(*ssa.Call); ok && staticCallee(&cl.Call) == isStaleF && inLoop(cl) {
+			test = cl
+		}
+	})
+	if test == nil {
+		return false
+	}
+	// the not-stale side of the test leads to a return of false and cannot reach r without a further test
+	v := ssa.Value(test)
+	for _, b := range f.Blocks {
+		ifi, ok := b.Instrs[len(b.Instrs)-1].(*ssa.If)
+		if !ok {
+			continue
+		}
+		cv, ts := boolTest(ifi)
+		if cv != v {
+			continue
+		}
+		notStale := b.Succs[1-ts]
+		// follow plain jumps
+		for len(notStale.Instrs) == 1 && len(notStale.Succs) == 1 {
+			notStale = notStale.Succs[0]
+		}
+		ret, isRet := notStale.Instrs[len(notStale.Instrs)-1].(*ssa.Return)
+		if !isRet {
+			return false
+		}
+		if bv, isC := constBool(ret.Results[0]); !isC || bv {
+			return false
+		}
+		return !inLoop(r)
+	}
+	return false
+}
+
+// c17UnreadableIsAlive: in the function that judges the files of the lock directory one by one, the failing side of the
+// per-file StatTimes leads to the verdict "not stale" — false handed to the combination, or a return of false. A file that
+// is skipped (continue) or counted as stale lets a contender take a live lock over when the holder's heartbeat file
+// vanishes between the listing and the stat (the holder releases, the next holder's file is not there yet) or when the
+// stat fails transiently (ESTALE on NFS).
+func (c *Ctx) c17UnreadableIsAlive(isStaleM, combiner, isStaleF *ssa.Function) (bool, string, string) {
+	var stat *ssa.Call
+	allInstrs(combiner, func(in ssa.Instruction) {
+		if cl, ok := in.(*ssa.Call); ok && inLoop(cl) {
+			if name, _, isFs := fsMethodCall(cl); isFs && (name == "StatTimes" || name == "Stat" || name == "Lstat") {
+				stat = cl
+			}
+		}
+	})
+	if stat == nil {
+		return false, "the files of the lock directory are no longer examined one by one", c.pos(combiner.Pos())
+	}
+	errs := errResultsOf(stat)
+	if len(errs) == 0 {
+		// the error is not even taken: the age test receives a nil info, which it answers with "not stale" (S3/nil-info)
+		return true, "", c.ipos(stat)
+	}
+	// constants handed to the combination: none may say "stale"
+	usesAll := false
+	constTrue := ""
+	allInstrs(combiner, func(in ssa.Instruction) {
+		cl, ok := in.(*ssa.Call)
+		if !ok {
+			return
+		}
+		if strings.HasSuffix(calleeFull(&cl.Call), "collection.All") {
+			usesAll = true
+		}
+		if calleeFull(&cl.Call) == "builtin.append" && len(cl.Call.Args) == 2 {
+			for _, e := range variadicElems(cl.Call.Args[1]) {
+				if _, isBool := e.Type().Underlying().(*types.Basic); !isBool {
+					continue
+				}
+				for _, l := range sources(e, deriveOpts{}) {
+					if b, isC := constBool(l); isC && b {
+						constTrue = c.ipos(cl)
+					}
+				}
+			}
+		}
+	})
+	if usesAll {
+		if constTrue != "" {
+			return false, "a verdict of 'stale' is handed to the combination at " + constTrue + " without the age having been read: a heartbeat file that cannot be examined counts as stale, and a live lock whose file was just replaced is taken over", constTrue
+		}
+		// and the failing side must still hand something to the combination: no way round the append back to the loop
+		var app ssa.Instruction
+		allInstrs(combiner, func(in ssa.Instruction) {
+			if cl, ok := in.(*ssa.Call); ok && calleeFull(&cl.Call) == "builtin.append" && inLoop(cl) {
+				app = cl
+			}
+		})
+		hdr := loopHeaderOf(stat)
+		if app != nil && hdr != nil {
+			skip := pathPruned(combiner, stat, func(in ssa.Instruction) bool { return in == app }, func(in ssa.Instruction) bool { return in.Block() == hdr && in == hdr.Instrs[0] }, nil)
+			if skip != nil {
+				return false, "a file can be left out of the combination (the loop goes on to the next file without recording a verdict): a heartbeat file that cannot be examined is treated as absent, and a lock whose only file is in that state is reported stale", c.ipos(stat)
+			}
+		}
+		return true, "", c.ipos(stat)
+	}
+	// early-exit form: the failing side of the stat ends in `return false`
+	for _, e := range errs {
+		for _, b := range combiner.Blocks {
+			ifi, ok := b.Instrs[len(b.Instrs)-1].(*ssa.If)
+			if !ok {
+				continue
+			}
+			x, nilSucc, isNil := nilTest(ifi)
+			if !isNil || x != e {
+				continue
+			}
+			t := b.Succs[1-nilSucc]
+			for len(t.Instrs) == 1 && len(t.Succs) == 1 {
+				t = t.Succs[0]
+			}
+			if r, isRet := t.Instrs[len(t.Instrs)-1].(*ssa.Return); isRet {
+				if v, isC := constBool(r.Results[0]); isC && !v {
+					return true, "", c.ipos(stat)
+				}
+			}
+			return false, "where the age of a heartbeat file cannot be read (" + c.ipos(stat) + ") the verdict is not 'not stale': the file is skipped or counted as stale, so a lock whose file was removed since the listing (the holder released and the next holder's file is not there yet) or whose stat failed transiently is reported stale and taken over while it is held", c.ipos(ifi)
+		}
+	}
+	return false, "the outcome of reading the age of a heartbeat file (" + c.ipos(stat) + ") is not examined in a recognised way", c.ipos(stat)
 }
